@@ -8,3 +8,6 @@ Proof. reflexivity. Qed.
 (* gen/__init__.py: the fast template emits keyword-only arguments after the positional ones (fixed finding F1) *)
 Lemma src_fast_kw_last : src_kw_last = true.
 Proof. reflexivity. Qed.
+(* converters.py: structure_attrs_fromtuple passes keyword-only attributes by keyword and leaves init=False attributes out of the call (fixed finding F27) *)
+Lemma src_tuple_passes_kw_only_by_keyword : src_tuple_by_kw = true.
+Proof. reflexivity. Qed.
